@@ -55,14 +55,15 @@ theorem equivSimplify_sound (I : Interp) (cl s) (h : equivSimplify cl = .ok s)
     unfold equivCase1 at hc1
     split at hc1
     · rename_i k' c d hr
-      have hre := notFoEq_destEq hr hk3
-      subst hre
       simp only [Bool.and_eq_true, beq_iff_eq] at hc1
       obtain ⟨rfl, rfl⟩ := hc1
+      have hre := notFoEq_destEq hr (by simpa using hk3)
+      subst hre
       intro _
       simp only [tr_iff, tr_not]
       grind
     · simp at hc1
+  clear hk3
   repeat' (split at h <;> try contradiction)
   all_goals (cases h)
   all_goals (simp_all [Seq.holds])
